@@ -28,6 +28,10 @@ def run(ctx):
         ectx = [e for (i, j, s) in sq.stmts() if s['k'] == 'assign' for e in [sq.rvalue_expr(s['rv'], i)] if e[0] == 'agg' and e[1].endswith('EncodingContext')]
         ectx = list({show(e): e for e in ectx}.values())
         ctx.ob(len(ectx) == 1 and show(dict(ectx[0][3]).get('outbound_alias_resolution')) == 'ProtocolState::compute_outbound_alias_resolution(self, packet)', 'the encoding context carries exactly that resolution', 'resolve|context', loc=sq.loc())
+        rarg = show(rc[0].arg(1))
+        if re.match(r'^\w+$', rarg):
+            ctx.ob(prims.reaching_defs(sq, rarg, rc[0].bb) == prims.reaching_defs(sq, rarg, er[0].bb) and show(er[0].arg(1)) == rarg,
+                   'the resolver is consulted for the very packet that is then encoded (same reaching definitions of `%s` at both sites: the PUBREL substitution happens before both)' % rarg, 'resolve|same-packet', loc=rc[0].loc())
         # every path from the resolver call to a loop-back/return passes the encoder setup
         succ, _, _ = sq.graph()
         seen = sq.reach(succ[rc[0].bb], avoid=[er[0].bb])
@@ -119,7 +123,7 @@ def run(ctx):
     ctx.ob(okr, 'LRU: whenever the cache already holds as many bindings as the negotiated maximum allows, the least-recently-used binding (whose alias is recycled) is removed before the new binding is recorded, and that test is made before every recording', 'lru|evict-before-record', loc=la.loc())
     ma = ctx.fn('<alias::ManualOutboundAliasResolver as alias::OutboundAliasResolver>::resolve_and_apply_topic_alias')
     ins = [m for m in prims.mutations(ma) if m.method == 'insert']
-    ctx.ob(len(ins) == 1 and guarded_any(ma, ins[0].bb, [r'skip_topic$']) and guarded_any(ma, ins[0].bb, [r'\.alias is Some$']), 'manual records the binding when it sends topic+alias', 'manual|record', loc=ma.loc())
+    ctx.ob(len(ins) == 1 and guarded_any(ma, ins[0].bb, [r'^!\(?.*skip_topic\)?$']) and guarded_any(ma, ins[0].bb, [r'\.alias is Some$']), 'manual records the binding when it sends topic+alias', 'manual|record', loc=ma.loc())
     # writers
     enc5, w5 = writers(ctx, 'encode::write_encoding_steps5')
     enc3, w3 = writers(ctx, 'encode::write_encoding_steps311')
